@@ -7,12 +7,6 @@ import Hv.Data.Treasure
 namespace Hv.Data
 open Content
 
-/-- a scalar value: neither void nor a slice -/
-def Val.scalar : Val → Bool
-  | .none => false
-  | .u32s _ => false
-  | _ => true
-
 @[simp] theorem vis_ofVal (v : Val) : (ofVal v).vis = v := by
   cases v <;> simp [ofVal, vis]
 
